@@ -5,7 +5,7 @@
         → <ok|raised:<code>|hang> exp=<n> wire=<n> f<i>=<len reqs>:<saved code|->:<pos>:<closed 0|1> …
     dest                                                        → hex;hex;…
     bad                                                         → badSince, comma separated
-    getfo|get <hex remote> <maxReq> <chunk> <stat code> <open code> <plan d<k>,f<c>,…|->
+    getfo|get <hex remote> <maxReq> <chunk> <stat code> <open code> <plan d<k>,f<c>,…|-> <size reported by STAT>
         → ok <hex local> | raised:<code> | fuel           (sequential model PV/Model/SftpGet.lean)
 -/
 import PV.Model.SftpClient
@@ -65,12 +65,12 @@ def stepLine (st : Option St) (line : String) : Option St × String :=
     | some op =>
       let (s', r) := stepOp s op
       (some s', showRes r ++ " " ++ showSt s')
-  | [mode, hex, m, ch, sc, oc, plan], _ =>
+  | [mode, hex, m, ch, sc, oc, plan, rep], _ =>
     if mode == "getfo" || mode == "get" then
-      match ofHex? hex, m.toNat?, ch.toNat?, sc.toNat?, oc.toNat?, parsePlan plan with
-      | some r, some mr, some c, some a, some b, some pl =>
-        (st, showGet ((if mode == "get" then SftpGet.get else SftpGet.getfo) r mr c a b pl 100000))
-      | _, _, _, _, _, _ => (st, "bad-op")
+      match ofHex? hex, m.toNat?, ch.toNat?, sc.toNat?, oc.toNat?, parsePlan plan, rep.toNat? with
+      | some r, some mr, some c, some a, some b, some pl, some rp =>
+        (st, showGet (if mode == "get" then SftpGet.get r mr c a b pl 100000 rp else SftpGet.getfo r mr c a b pl 100000 rp))
+      | _, _, _, _, _, _, _ => (st, "bad-op")
     else (st, "bad-op")
   | ["dest"], some s => (st, ";".intercalate (s.dest.map toHexTok))
   | ["bad"], some s => (st, ",".intercalate (s.badSince.map toString))
